@@ -321,5 +321,24 @@ def visit_agreement_rule(crate, prop, rule="C12.R2"):
                    (sorted(named), sorted(gen)), file, line)
         if not ok_inline:
             r.fail(prop, "forward-mismatch %s" % self_ty, "inline() mentions parameters that visit_dependencies() does not forward", file, line)
+        # a parameter that inline() renders *by name* is referenced by whoever inlines this type, and that user only
+        # calls visit_dependencies(): the parameter itself must be visited there
+        named_inl = set()
+        for fnm in ("inline", "inline_flattened"):
+            bb = fns.get(fnm)
+            for _, t in (bb.calls() if bb is not None else []):
+                f = t.get("fn") or {}
+                a0 = (f.get("args") or [""])[0]
+                # `<Self as TS>::name()` inside a "cannot be flattened" panic message is not part of the rendered type
+                if f.get("trait") == "TS" and f["path"].split("::")[-1] == "name" and a0 != self_ty and a0 != "Self":
+                    named_inl |= _params_in(a0, params)
+        vis_dep, _ = visited("visit_dependencies")
+        vis_dep = vis_dep or set()
+        if named_inl:
+            r.inst(impl=self_ty, where="%s:%s" % (file, line), named_by_inline=sorted(named_inl), visited_by_visit_dependencies=sorted(vis_dep), ok=named_inl <= vis_dep)
+        if named_inl - vis_dep:
+            r.fail(prop, "inline-names-unvisited %s" % self_ty,
+                   "inline() renders %s by name, but visit_dependencies() does not visit %s itself (only forwards its dependencies): a type that inlines this one mentions the name without depending on it" %
+                   (sorted(named_inl - vis_dep), "them" if len(named_inl - vis_dep) > 1 else "it"), file, line)
     r.floor = 30
     return r
